@@ -1,20 +1,29 @@
 """C14  The communication engine delivers every message exactly once and intact.
 
-spec/Comm/Engine.tla       abstract engine: active messages (send / deliver), one-sided put / get (issue, remote
-                           completion, local completion); source of the workloads (TLC -simulate)
+spec/Comm/Engine.tla       abstract engine (= the property): active messages (send / deliver), one-sided put / get (issue,
+                           remote completion, local completion); source of general workloads (TLC -simulate)
+spec/Comm/EngineImpl.tla   implementation-shaped model of the dynamic request window of parsec_mpi_funnelled.c: D slots, at
+                           most R receives (as mpi_funnelled_normalize_params computes them from the two runtime parameters),
+                           dynamic_recvreq_fifo / dynamic_sendreq_fifo, the 3-message handshake of put / get, a slot freed on
+                           completion and refilled by mpi_no_thread_push_posted_req; refines Engine.tla
 spec/Comm/EngineTrace.tla  per-process cursors over the logs of a real MPI run: every delivery / completion must match
                            exactly one message / transfer in flight with identical length and checksum; nothing left over
 
-1. TLC, exhaustive on Engine.tla for a small bound (every sequence of <= MaxOps operations, every delivery order):
-   TypeOK, every maximal behaviour ends with everything delivered / completed.
-2. Workloads: TLC -simulate behaviours of Engine.tla (2-3 processes, 3 tags, message sizes 0..4000, regions 0..4 MiB).
+1. TLC, exhaustive: Engine.tla for a small bound; EngineImpl.tla: TypeOK, WindowOK, NoDeadlock (while a transfer is incomplete the
+   engine can move: no workload of the bound, however interleaved, blocks the window when R < D) and the refinement of
+   Engine.tla.  Sensitivity: the weakened models "nocap" (R = D, the old defect fixed by 8b92ffd) and "pushge" (a parked receive
+   admitted while R >= installed receives) MUST violate NoDeadlock.
+2. Workloads: (a) TLC -simulate behaviours of Engine.tla (2-3 processes, 3 tags, sizes 0..4 MiB); (b) TLC -simulate behaviours of
+   EngineImpl.tla for D in {2, 3, 5}: the behaviours of the weakened model that end stuck, and the behaviours of the real
+   model in which the queues of two processes are deepest at the same time (history variable peak); (c) a fixed family:
+   K opposite gets per process, K in {2, 4, 8, 16}, 8 B / 1 KiB / 64 KiB.
 3. Real code: a test-owned MPI program (harness/commengine/ce_mpi.c) drives the real engine through the parsec_ce table
-   (tag_register, send_am, mem_register, put, get, progress) on 2-3 ranks under mpiexec, for several request-window
-   settings (runtime_comm_mpi_am_posted/tested/dynamic(_recv)_requests), in two issue modes (interleaved with progress /
+   (tag_register, send_am, mem_register, put, get, progress) on 2-3 ranks under mpiexec; the window workloads run with
+   runtime_comm_mpi_dynamic_requests = the D they were generated for (receive share = D-1 and other shares in the
+   thorough tier), am_posted / am_tested requests from default down to 1, in two issue modes (interleaved with progress /
    everything issued before any progress).  Per-rank ndjson logs are merged by TLC with per-rank cursors.
-4. Two directed inputs reproduce genuine defects of the engine (see the report / fixes/C14-*.diff):
-   key "put-get-tag-clash"      a put p->q and a get by q from p outstanding together use the same MPI tag
-   key "dynamic-window-all-recv" with dynamic_recv_requests == dynamic_requests two opposite gets deadlock
+   A hang (no completion on a rank for the floor of 30 s) is reported only when a rerun of that workload alone hangs again.
+4. Regression inputs of the two defects found earlier (fixed in /repo: 5017463, 8b92ffd).
 """
 import json
 import os
@@ -23,22 +32,30 @@ from lib import mcgen, tlc, tracecheck, vbuild
 
 META = {
     "level": "model_checking",
-    "text": "TLC checks the abstract engine (active messages and one-sided transfers complete exactly once) exhaustively "
-            "for a small bound and generates workloads by simulation; a test-owned MPI program drives the real "
-            "parsec_ce engine (send_am, put, get, progress) on 2-3 ranks for several request-window settings and issue "
-            "modes; TLC merges the per-rank logs with per-rank cursors and accepts a run only if every delivery and "
-            "completion matches exactly one send / transfer with identical length and checksum and nothing is left over.",
-    "note": "Sampled: TLC-simulated workloads of 10-24 operations, message sizes 0..4000 bytes, regions 0..4 MiB, windows "
-            "from 1 up.  Workloads of the class MixedDirection and the window setting dynamic_recv == dynamic are run as "
-            "separate directed inputs (they expose two genuine defects; fixes in fixes/C14-*.diff).  A hang is declared "
-            "after a generous floor without any completion and re-confirmed by a rerun.  Trusted: TLC, Open MPI, the harness.",
-    "technique": "TLA+ abstract engine (TLC) + TLC-simulated workloads run on the real engine under MPI + per-rank-cursor "
-                 "trace validation (TLC)",
+    "text": "TLC checks the abstract engine (active messages and one-sided transfers complete exactly once) and an "
+            "implementation-shaped model of the dynamic request window (slots, receive share, the two queues, the put/get "
+            "handshake) exhaustively for a small bound: the window never blocks, the model refines the abstract engine, and "
+            "the weakened window models do deadlock.  TLC-simulated workloads of both models (general ones, and the ones "
+            "that overflow the window on two processes at once) plus a fixed family of opposite gets are run by a "
+            "test-owned MPI program on the real parsec_ce engine (send_am, put, get, progress) on 2-3 ranks, for window "
+            "sizes 2, 3, 5 and default and two issue modes; TLC merges the per-rank logs with per-rank cursors and accepts a run "
+            "only if every delivery and completion matches exactly one send / transfer with identical length and checksum and "
+            "nothing is left over.",
+    "note": "Exhaustive: window model for 2 processes, 2 (quick) / 3 (thorough) operations per process, D = 2 (and 3).  Sampled: "
+            "TLC-simulated workloads of 10-24 operations, message sizes 0..4000 bytes, regions 0..4 MiB, windows from 1 up.  A "
+            "hang is declared after a generous floor without any completion and re-confirmed by a rerun.  Trusted: TLC, Open MPI, "
+            "the harness; the timing of MPI completions is not controlled.",
+    "technique": "TLA+ abstract engine + refined request-window model (TLC, with weakened-model sensitivity) + TLC-generated "
+                 "workloads run on the real engine under MPI + per-rank-cursor trace validation (TLC)",
 }
 
 AM_SIZES = {0, 1, 16, 1000, 4000}
 XF_SIZES = {0, 1, 4096, 65536, 1048576, 4194304}
 JVM_ENV = {"JAVA_TOOL_OPTIONS": "-Xss16m"}
+AM_WINDOWS = [(0, 0), (1, 1), (2, 1), (2, 2)]           # (am_posted, am_tested) requests; 0 = runtime default
+CLASS_LEN = {"s": (8, 1024), "l": (65536, 200000)}      # payload classes of EngineImpl.tla (eager / rendezvous)
+WINDOWS = (2, 3, 5)
+PARAM_NAMES = ("am_posted_requests", "am_tested_requests", "dynamic_requests", "dynamic_recv_requests")
 
 
 def wl_line(mode, ops, am_cap=None):
@@ -51,8 +68,33 @@ def wl_line(mode, ops, am_cap=None):
     return "%s %s" % (mode, ";".join(out))
 
 
+def concrete(ops, rng):
+    """Operations of EngineImpl.tla (payload class) -> operations of the harness (payload length)."""
+    out = []
+    for o in ops:
+        n = rng.choice(CLASS_LEN[o["cls"]])
+        if o["op"] == "am":
+            n = min(n, 1000)
+        out.append({"op": o["op"], "p": o["p"], "q": o["q"], "tag": 0, "len": n})
+    return out
+
+
+def family(np_, ks, sizes):
+    """K gets per process from its neighbour (2 processes: opposite gets), all of one size."""
+    out = []
+    for k in ks:
+        for n in sizes:
+            ops = []
+            for _ in range(k):
+                for p in range(np_):
+                    ops.append({"op": "get", "p": p, "q": (p + 1) % np_, "tag": 0, "len": n})
+            out.append(ops)
+    return out
+
+
 def mpi_run(ctx, exe, np_, params, lines, tag, floor=30):
-    """One mpiexec run over several workloads.  Returns the list of merged executions (one per workload)."""
+    """One mpiexec run over several workloads.  Returns the list of merged executions (one per workload).
+    params = (am_posted, am_tested, dynamic, dynamic_recv) requests; None = parameter not set at all."""
     wf = os.path.join(ctx.scratch, "wl-%s.txt" % tag)
     with open(wf, "w") as f:
         f.write("\n".join(lines) + "\n")
@@ -62,9 +104,9 @@ def mpi_run(ctx, exe, np_, params, lines, tag, floor=30):
             os.unlink("%s.%d.ndjson" % (prefix, r))
         except OSError:
             pass
-    names = ("am_posted_requests", "am_tested_requests", "dynamic_requests", "dynamic_recv_requests")
-    env = {"PARSEC_MCA_runtime_comm_mpi_" + k: str(v) for k, v in zip(names, params)}
-    rc, out, err = ctx.run_cmd(vbuild.mpirun(np_) + [exe, wf, prefix, str(floor)], timeout=900, env=env)
+    env = {"PARSEC_MCA_runtime_comm_mpi_" + k: str(v) for k, v in zip(PARAM_NAMES, params) if v is not None}
+    rc, out, err = ctx.run_cmd(vbuild.mpirun(np_) + [exe, wf, prefix, str(floor)], timeout=900 + 12 * floor, env=env)
+    ctx.extra["mpi_runs"] = ctx.extra.get("mpi_runs", 0) + 1
     per = []
     for r in range(np_):
         p = "%s.%d.ndjson" % (prefix, r)
@@ -97,38 +139,154 @@ def rejected_once(ctx, events):
     return not v.accepted
 
 
+def suspicious(ex):
+    return any(ev.get("e") in ("Crash", "timeout", "garbage") for ev in ex)
+
+
+class Campaign(object):
+    """The MPI runs of one check: executions are validated in one batch at the end, except the ones of a run that died,
+    which are validated (and re-confirmed) at once; after a confirmed violation no further run is started."""
+
+    def __init__(self, ctx, exe):
+        self.ctx, self.exe = ctx, exe
+        self.executions, self.origin, self.done = [], [], 0
+        self.stopped = False
+        self.nlaunch = 0
+
+    def launch(self, np_, params, lines, what):
+        if self.stopped or not lines:
+            if self.stopped:
+                self.ctx.extra["runs_skipped_after_violation"] = self.ctx.extra.get("runs_skipped_after_violation", 0) + 1
+            return
+        self.nlaunch += 1
+        exs = mpi_run(self.ctx, self.exe, np_, params, lines, "r%d" % self.nlaunch)
+        first = len(self.executions)
+        for line, ex in zip(lines, exs):
+            if ex is None:
+                continue
+            self.executions.append(ex)
+            self.origin.append({"np": np_, "params": list(params), "workload": line, "family": what})
+        if any(suspicious(ex) for ex in self.executions[first:]):
+            self.validate()
+
+    def validate(self):
+        """Validate everything not validated yet; failures are re-confirmed by a rerun of that workload alone."""
+        ctx = self.ctx
+        todo = list(range(self.done, len(self.executions)))
+        self.done = len(self.executions)
+        if not todo:
+            return
+        fails = ctx.validate("Comm", "EngineTrace", "EngineTrace.cfg", [self.executions[i] for i in todo], batch=400,
+                             env=JVM_ENV, timeout=1500)
+        for f in fails:
+            o = self.origin[todo[f.index]]
+            again = mpi_run(ctx, self.exe, o["np"], tuple(o["params"]), [o["workload"]], "confirm")
+            if again[0] is not None and not rejected_once(ctx, again[0]):
+                ctx.extra["not_reproduced"] = ctx.extra.get("not_reproduced", 0) + 1
+                continue
+            self.stopped = True
+            ctx.violation("communication engine: a message / transfer was lost, duplicated, altered or never completed (%s): np=%d "
+                          "requests(am_posted,am_tested,dynamic,dynamic_recv)=%s workload=%s"
+                          % (o["family"], o["np"], o["params"], o["workload"]), dict(o, events=f.execution))
+
+
 def run(ctx):
     d = ctx.stage("Comm")
     exe = ctx.harness("ce_mpi", ["harness/commengine/ce_mpi.c"])
+    rng = ctx.rng
 
-    # ---- 1. the abstract engine, exhaustive for a small bound --------------------------------------------------------------
+    # ---- 1. the abstract engine and the request-window model, exhaustive for a small bound -------------------------------------
     mod, cfg = mcgen.write_mc(d, "eng", "Engine", {"NP": 2, "Tags": {0, 1}, "AmSizes": {0, 8}, "XferSizes": {64},
                                                    "MaxOps": 2 if ctx.quick else 3, "Mixed": True},
                               invariants=("TypeOK", "Completes"))
     ctx.tlc_check(d, mod, cfg, must_cover=("SendAM", "DeliverAM", "Xfer", "XferRemote", "XferLocal"), workers=2, timeout=1500)
+    win = {"NP": 2, "Settings": {(2, 15)} if ctx.quick else {(2, 15), (3, 15), (3, 0), (1, 15)}, "MaxOps": 4 if ctx.quick else 6,
+           "MaxPer": 2 if ctx.quick else 3, "Kinds": {"get", "put"}, "Classes": {"l"} if ctx.quick else {"s", "l"},
+           "Variants": {"ok"}}
+    mod, cfg = mcgen.write_mc(d, "win", "EngineImpl", win, invariants=("TypeOK", "WindowOK", "NoDeadlock"),
+                              properties=("Refines",), view="NoHist")
+    ctx.tlc_check(d, mod, cfg, must_cover=("Issue", "AmArrive", "SendDone", "RecvDone"), workers=4, timeout=3000)
+    # sensitivity: the weakened window models must deadlock (shortest counter-example of the BFS)
+    for variant, settings in (("nocap", {(1, 15), (2, 2)}), ("pushge", {(2, 15)})):
+        mod, cfg = mcgen.write_mc(d, "win_" + variant, "EngineImpl",
+                                  dict(win, Settings=settings, MaxOps=4, MaxPer=2, Kinds={"get"}, Classes={"l"}, Variants={variant}),
+                                  invariants=("TypeOK", "NoDeadlock"), view="NoHist")
+        r = ctx.tlc_check(d, mod, cfg, expect_ok=False, workers=1, timeout=1500)
+        if r.violated != "NoDeadlock":
+            raise tlc.TLCError("sensitivity self-test: the weakened window model '%s' (receives may fill every dynamic slot) "
+                               "does not deadlock in EngineImpl.tla (%s)" % (variant, r.violated))
+        ctx.extra.setdefault("weakened_models_deadlock", []).append(variant)
     ctx.exhaustive = False
 
     # ---- 2. workloads ---------------------------------------------------------------------------------------------------------------
-    plain, mixed = {}, {}
-    for np_, nops, num in ((2, 12, 24), (3, 20, 36)) if ctx.quick else ((2, 16, 120), (3, 24, 160)):
-        for name, flag, store, cnt in (("plain", False, plain, num), ("mixed", True, mixed, max(8, num // 6))):
-            mod, cfg = mcgen.write_mc(d, "engsim%d%s" % (np_, name), "Engine",
-                                      {"NP": np_, "Tags": {0, 1, 2}, "AmSizes": AM_SIZES, "XferSizes": XF_SIZES,
-                                       "MaxOps": nops, "Mixed": flag}, invariants=("Emit",))
-            hs = ctx.tlc_histories(d, mod, cfg, cnt, 3 * nops + 2, workers=2, timeout=900)
-            store[np_] = [h["ops"] for h in hs if h["mixed"] == flag]
-    ctx.extra["workloads"] = {str(k): {"plain": len(plain[k]), "mixed_direction": len(mixed[k])} for k in plain}
+    general = {}
+    for np_, nops, num in ((2, 12, 24), (3, 20, 24)) if ctx.quick else ((2, 16, 120), (3, 24, 160)):
+        mod, cfg = mcgen.write_mc(d, "engsim%d" % np_, "Engine",
+                                  {"NP": np_, "Tags": {0, 1, 2}, "AmSizes": AM_SIZES, "XferSizes": XF_SIZES,
+                                   "MaxOps": nops, "Mixed": True}, invariants=("Emit",))
+        hs = ctx.tlc_histories(d, mod, cfg, num, 3 * nops + 2, workers=2, timeout=900)
+        general[np_] = [h["ops"] for h in hs]
+    # behaviours of the window model: stuck[np][D] (weakened model, ended stuck), deep[np][D] (real model, by peak)
+    stuck, deep = {}, {}
+    for np_, nops, per, num in ((2, 16, 8, 64), (3, 18, 6, 64)) if ctx.quick else ((2, 20, 10, 400), (3, 24, 8, 400)):
+        mod, cfg = mcgen.write_mc(d, "winsim%d" % np_, "EngineImpl",
+                                  {"NP": np_, "Settings": {(w, 15) for w in WINDOWS}, "MaxOps": nops, "MaxPer": per,
+                                   "Kinds": {"get", "put"}, "Classes": {"s", "l"}, "Variants": {"ok", "pushge"}},
+                                  invariants=("Emit",))
+        hs = ctx.tlc_histories(d, mod, cfg, num, 4 * nops + 4, workers=2, timeout=900)
+        stuck[np_] = {w: [h for h in hs if h["pd"] == w and h["variant"] == "pushge" and h["stuck"]] for w in WINDOWS}
+        deep[np_] = {w: sorted([h for h in hs if h["pd"] == w and h["variant"] == "ok" and h["peak"] >= 1],
+                               key=lambda h: -h["peak"]) for w in WINDOWS}
+    ctx.extra["workloads"] = {"general": {str(k): len(v) for k, v in general.items()},
+                              "window_stuck_in_weakened_model": {"%d ranks D=%d" % (k, w): len(v[w]) for k, v in stuck.items() for w in v},
+                              "window_deepest": {"%d ranks D=%d" % (k, w): [h["peak"] for h in v[w][:3]] for k, v in deep.items() for w in v}}
 
     # ---- 3. the real engine under MPI -----------------------------------------------------------------------------------------------
-    # (np, (posted, tested, dynamic, dynamic_recv)); 0 = runtime default
+    camp = Campaign(ctx, exe)
+    rot = ctx.seed
+    # 3a. the window workloads of TLC, with the window they were generated for; receive share D-1 (parameter left at its
+    #     default 15, capped by normalize_params) and, thorough, other shares
+    nw = 0
+    for np_ in (2, 3):
+        for w in WINDOWS:
+            pick = stuck[np_][w][:2 if ctx.quick else 6] + deep[np_][w][:1 if ctx.quick else 4]
+            if not pick:
+                continue
+            lines = []
+            for h in pick:
+                ops = concrete(h["ops"], rng)
+                lines += [wl_line("B", ops), wl_line("I", ops)]
+            nw += len(pick)
+            if len(ctx.samples) < 1:
+                ctx.sample({"window_workload_from_TLC": pick[0], "as_run": lines[0]})
+            shares = [None] if ctx.quick else [None, w - 1, 0, 1, w]
+            for share in shares:
+                rot += 1
+                posted, tested = AM_WINDOWS[rot % len(AM_WINDOWS)]
+                camp.launch(np_, (posted, tested, w, share), lines, "window workload of EngineImpl.tla")
+    ctx.extra["window_workloads_run"] = nw
+    # 3b. the fixed family: K opposite gets per process
+    sizes = (8, 1024, 65536)
+    fam2 = family(2, (2, 4, 8, 16), sizes)
+    fam3 = family(3, (2, 4, 8), sizes)
+    lines2 = [wl_line(m, ops) for ops in fam2 for m in ("B", "I")]
+    lines3 = [wl_line(m, ops) for ops in fam3 for m in ("B", "I")]
+    for w in WINDOWS if ctx.quick else (1, 2, 3, 4, 5, 8, 0):
+        rot += 1
+        posted, tested = AM_WINDOWS[rot % len(AM_WINDOWS)]
+        camp.launch(2, (posted, tested, w, None), lines2, "K opposite gets per process")
+    for w in (2,) if ctx.quick else WINDOWS:
+        rot += 1
+        posted, tested = AM_WINDOWS[rot % len(AM_WINDOWS)]
+        camp.launch(3, (posted, tested, w, None), lines3, "K gets per process around a ring")
+    # 3c. general workloads of Engine.tla; (np, (posted, tested, dynamic, dynamic_recv)); 0 = runtime default
     configs = [(2, (0, 0, 0, 0)), (3, (0, 0, 0, 0)), (2, (1, 1, 2, 1)), (3, (1, 1, 3, 1)), (3, (2, 1, 2, 1)), (2, (4, 2, 4, 2))]
     if not ctx.quick:
         configs += [(3, (1, 1, 30, 15)), (2, (2, 2, 3, 2)), (3, (8, 2, 8, 3)), (2, (1, 1, 5, 4)), (3, (3, 3, 4, 1)), (2, (16, 4, 2, 1))]
     per_run = 4 if ctx.quick else 8
-    executions, origin = [], []
     cursor = {2: 0, 3: 0}
-    for ci, (np_, params) in enumerate(configs):
-        pool = plain[np_]
+    for np_, params in configs:
+        pool = general[np_]
         if not pool:
             continue
         lines = []
@@ -137,71 +295,31 @@ def run(ctx):
             mode = "B" if j % 2 else "I"
             lines.append(wl_line(mode, ops, am_cap=1000 if mode == "B" else None))
         cursor[np_] += per_run
-        exs = mpi_run(ctx, exe, np_, params, lines, "c%d" % ci)
-        for line, ex in zip(lines, exs):
-            if ex is None:
-                continue
-            executions.append(ex)
-            origin.append({"np": np_, "params": params, "workload": line})
+        camp.launch(np_, params, lines, "workload of Engine.tla")
+    # 3d. regression inputs of the two defects found by this check earlier (fixed: 5017463 tag ranges, 8b92ffd send slot)
+    camp.launch(2, (0, 0, 1, 1), ["B get 0 1 0 8;get 1 0 0 8", "B put 0 1 0 4096;get 1 0 0 4096",
+                                  "I put 0 1 0 4096;get 1 0 0 4096"], "regression input")
+    camp.validate()
+    executions = camp.executions
     ctx.evaluations = len(executions)
-    ctx.extra["mpi_runs"] = len(configs)
-    if executions:
-        ctx.sample({"config": origin[0], "merged_log_head": executions[0][:12]})
-    fails = ctx.validate("Comm", "EngineTrace", "EngineTrace.cfg", executions, batch=400, env=JVM_ENV, timeout=1500)
-    for f in fails:
-        o = origin[f.index]
-        # a crash / hang is re-confirmed by a rerun of that workload alone before it is reported
-        again = mpi_run(ctx, exe, o["np"], o["params"], [o["workload"]], "confirm")
-        if again[0] is not None and not rejected_once(ctx, again[0]):
-            ctx.extra["not_reproduced"] = ctx.extra.get("not_reproduced", 0) + 1
-            continue
-        ctx.violation("communication engine: a message / transfer was lost, duplicated, altered or never completed: np=%d "
-                      "windows(posted,tested,dynamic,dynamic_recv)=%s workload=%s" % (o["np"], o["params"], o["workload"]),
-                      dict(o, events=f.execution))
-
-    # ---- 4. directed inputs of the two defect classes ----------------------------------------------------------------------------------
-    clash = "B put 0 1 0 4096;get 1 0 0 4096"
-    exs = mpi_run(ctx, exe, 2, (0, 0, 0, 0), [clash], "clash")
-    ctx.evaluations += 1
-    if exs[0] is not None and rejected_once(ctx, exs[0]):
-        ctx.violation("communication engine: a put 0->1 and a get by 1 from 0 outstanding together exchange their data (both use "
-                      "MPI tag 0 from rank 0 to rank 1): %s" % clash,
-                      {"np": 2, "params": (0, 0, 0, 0), "workload": clash, "events": exs[0]}, key="put-get-tag-clash")
-    dead = "B get 0 1 0 8;get 1 0 0 8"
-    exs = mpi_run(ctx, exe, 2, (0, 0, 1, 1), [dead], "dead", floor=8)
-    ctx.evaluations += 1
-    if exs[0] is not None and rejected_once(ctx, exs[0]):
-        exs = mpi_run(ctx, exe, 2, (0, 0, 1, 1), [dead], "dead2", floor=16)       # confirm the hang with a longer floor
-        if exs[0] is not None and rejected_once(ctx, exs[0]):
-            ctx.violation("communication engine: with runtime_comm_mpi_dynamic_requests=1 (dynamic_recv_requests = dynamic_requests) "
-                          "two opposite gets never complete: every dynamic slot holds a receive, the replies cannot be posted: %s" % dead,
-                          {"np": 2, "params": (0, 0, 1, 1), "workload": dead, "events": exs[0]}, key="dynamic-window-all-recv")
-    # a few TLC workloads of the class MixedDirection, one mpiexec run each (a tag clash may abort the whole run)
-    nm = 0
-    for np_ in (2, 3):
-        for ops in mixed[np_][:(1 if ctx.quick else 4)]:
-            line = wl_line("I", ops)
-            exs = mpi_run(ctx, exe, np_, (0, 0, 0, 0), [line], "mixed%d" % nm)
-            nm += 1
-            ctx.evaluations += 1
-            if exs[0] is not None and rejected_once(ctx, exs[0]):
-                ctx.violation("communication engine: mixed-direction put/get workload: %s" % line,
-                              {"np": np_, "params": (0, 0, 0, 0), "workload": line, "events": exs[0]}, key="put-get-tag-clash")
-    ctx.extra["mixed_direction_runs"] = nm
     ctx.traces = ctx.evaluations
+    if executions:
+        ctx.sample({"config": camp.origin[0], "merged_log_head": executions[0][:12]})
 
     # ---- binding self-test: one altered checksum must be rejected -----------------------------------------------------------------------
-    good = [e for e in executions if any(ev.get("e") == "deliver" for ev in e)]
-    if good and not fails:
-        ex = json.loads(json.dumps(good[0]))
+    good = [e for e in executions if any(ev.get("e") == "getlocal" for ev in e) and not suspicious(e)]
+    if good and not ctx.violations:
+        ex = json.loads(json.dumps(min(good, key=len)))
         for ev in ex:
-            if ev.get("e") == "deliver":
+            if ev.get("e") == "getlocal":
                 ev["sum"] = (ev["sum"] + 1) % 2147483647
                 break
         if not rejected_once(ctx, ex):
-            raise tlc.TLCError("binding self-test: a delivery with an altered checksum was accepted by EngineTrace")
+            raise tlc.TLCError("binding self-test: a get completion with an altered checksum was accepted by EngineTrace")
     ctx.assume("the communication thread of the runtime is never started: the harness' main thread is the only user of the engine")
     ctx.assume("put/get transfer the whole registered region (count x datatype of the handle), as the engine defines it")
+    ctx.assume("the order in which MPI completes requests is not controlled: EngineImpl.tla covers every order in the model, "
+               "the real runs sample the orders that the two issue modes and the window settings produce")
 
 
 def replay(ctx, obj):
